@@ -775,7 +775,8 @@ def retransmit (K : Crypto) : M (List Bytes) := do
 
 def maybeRetransmit (K : Crypto) : M (List Bytes) := do
   let c ← getc
-  if c.resendMsgs.length > 0 ∧ c.mayRetransmit ≠ .no then retransmit K else return []
+  -- repaired code: nothing is dequeued unless the conversation is encrypted
+  if c.resendMsgs.length > 0 ∧ c.mayRetransmit ≠ .no ∧ c.msgState = .encrypted then retransmit K else return []
 
 /-- processAKE: messages to send, and the error (state changes are kept) -/
 def processAKE (K : Crypto) (msgType : Nat) (msg : Bytes) : M (List Bytes × Option Err) := do
